@@ -1185,3 +1185,66 @@ Theorem camel_name_starts_cap : forall e c r,
 Proof.
   intros e c r He Hc Hi. unfold camel_name. rewrite He. now apply to_camel_starts_cap.
 Qed.
+
+(* ---- the generated names never collide with each other ------------------------------------------- *)
+Lemma app_suffix_neq : forall (c a b : bytes), a <> b -> c ++ a <> c ++ b.
+Proof. intros c a b H E. apply app_inv_head in E. contradiction. Qed.
+
+Theorem generated_names_distinct : forall e,
+  NoDup [component_name e (bs "Keys"); component_name e (bs "Data"); component_name e (bs "Status");
+         component_name e (bs "State"); component_name e (bs "EventType"); component_name e (bs "Event")]
+  /\ NoDup [query_prefix e ++ bs "GetRequest"; query_prefix e ++ bs "GetResponse";
+            query_prefix e ++ bs "ListRequest"; query_prefix e ++ bs "ListResponse";
+            query_prefix e ++ bs "EventsRequest"; query_prefix e ++ bs "EventsResponse"].
+Proof.
+  intros e. unfold component_name. split.
+  - repeat constructor; cbn [In]; intros H;
+      repeat (destruct H as [H|H]; [apply app_inv_head in H; vm_compute in H; discriminate|]); exact H.
+  - repeat constructor; cbn [In]; intros H;
+      repeat (destruct H as [H|H]; [apply app_inv_head in H; vm_compute in H; discriminate|]); exact H.
+Qed.
+
+(* with distinct UpperCamel event names the options of the event oneof are distinct too: the
+   correspondence events <-> options is a bijection *)
+Theorem event_options_distinct : forall e,
+  Forall (fun ev => upper_word (ev_name ev) = true) (e_events e) ->
+  NoDup (map ev_name (e_events e)) ->
+  NoDup (map f_json (m_fields (event_type_msg e))) /\ NoDup (map fst (m_nested (event_type_msg e))).
+Proof.
+  intros e HU HN. unfold event_type_msg. cbn [m_fields m_nested]. rewrite !map_map. cbn [f_json fst].
+  split; [|exact HN].
+  induction (e_events e) as [|ev l IH]; [constructor|].
+  inversion HU as [|? ? Hev Hl]; subst. inversion HN as [|? ? Hnin Hnd]; subst.
+  cbn [map]. constructor; [|now apply IH].
+  intros Hin. apply in_map_iff in Hin. destruct Hin as [ev' [Heq Hin']].
+  apply Hnin. rewrite Forall_forall in Hl.
+  apply (to_lower_camel_injective_upper_word _ _ (Hl ev' Hin') Hev) in Heq. rewrite <- Heq.
+  now apply in_map.
+Qed.
+
+(* the List path carries exactly the shard keys *)
+Theorem list_path : forall e,
+  e_base_url e = [] -> ident (e_name e) = true -> no_colon (e_pkg e) = true ->
+  Forall (fun k => ident (uf_name (k_def k)) = true) (e_keys e) ->
+  nth 1 (query_paths e) [] = query_base e ++ flat_map (fun u => 47 :: brace u) (list_keys e)
+  /\ list_keys e = map k_def (filter (fun k => is_key_field (k_def k) && k_shard k) (e_keys e)).
+Proof.
+  intros e Hb Hi Hp Hk. split; [|reflexivity].
+  destruct (default_query_base e Hb Hi Hp) as [B1 B2].
+  unfold query_paths. cbn [nth]. unfold path_join.
+  destruct (list_keys e) as [|u ks] eqn:El.
+  { cbn [key_path map join flat_map]. rewrite app_nil_r. exact B1. }
+  destruct (join [47] (key_path (u :: ks))) as [|c l] eqn:Ej.
+  - exfalso. cbn [key_path map] in Ej. destruct (map _ ks); cbn in Ej; discriminate.
+  - rewrite <- Ej.
+    change (query_base e ++ 47 :: join [47] (key_path (u :: ks)))
+      with (query_base e ++ [47] ++ join [47] (key_path (u :: ks))).
+    rewrite http_rule_path_app, B1. f_equal.
+    assert (Hl : Forall (fun x => no_slash (uf_name x) = true) (u :: ks)).
+    { rewrite <- El. unfold list_keys. apply Forall_map. apply Forall_forall. intros k Hin.
+      apply filter_In in Hin. destruct Hin as [Hin _]. rewrite Forall_forall in Hk.
+      exact (proj2 (ident_no_colon_slash _ (Hk k Hin))). }
+    pose proof (http_rule_path_keys (u :: ks) [] Hl (Forall_nil _)) as H.
+    rewrite !app_nil_r in H. rewrite H by discriminate.
+    rewrite flat_map_brace, <- slash_join by discriminate. reflexivity.
+Qed.
